@@ -488,6 +488,11 @@ def check_C11(ck):
     cases.append(("cancel", "pairprod %s %s %s %s" % (g1.A(g1.C.mul(P, a)), g2.A(Qp), g1.A(g1.C.neg(g1.C.mul(P, a))), g2.A(Qp)))); exp.append(O.show_f12(O.F12_ONE))
     b = rng.randrange(1, R)
     cases.append(("cancel", "pairmulti %s;%s %s;%s" % (g1.A(g1.C.mul(g1.gen, a)), g1.A(g1.C.mul(g1.gen, b)), g2.A(g2.C.mul(g2.gen, b)), g2.A(g2.C.mul(g2.gen, R - a))))); exp.append(O.show_f12(O.F12_ONE))
+    # the product against the independent textbook ate pairing (not against the implementation's own single pairings)
+    if len(pool) >= 2:
+        (Pa, Qa), (Pb, Qb) = pool[0], pool[1]
+        cases.append(("multi/textbook-ate-product", "pairmulti %s;%s %s;%s" % (g1.A(Pa), g1.A(Pb), g2.A(Qa), g2.A(Qb))))
+        exp.append(O.show_f12(O.f12_mul(O.ate_pairing(Pa, Qa), O.ate_pairing(Pb, Qb))))
     # ONE prepared element (the same reference) serving several pairs of one Miller loop, incl. G1 points that cancel;
     # the loop is evaluated twice with the same prepared elements (millerref prints FE of the loop)
     if 0 in val and 1 in val:
